@@ -9,7 +9,7 @@ CONSTANTS
   UpModes = {"free"}
   Requests <- Req_one
   Routes <- Routes_one
-  Entries = {"core", "handler"}
+  Entries = {"handler"}
   Timeout = 2
   Record = FALSE
   Dev = {}
